@@ -40,7 +40,7 @@ fn gen_event(rng: &mut Rng, cols: u16, rows: u16) -> KEv {
     match rng.below(100) {
         0..=24 => key(*rng.pick(&["F1", "F2", "F3", "F3", "F4", "F5", "Tab"])),
         25..=49 => key(*rng.pick(&["Up", "Down", "Down", "Down", "Enter", "Enter", "Left", "Right"])),
-        50..=59 => key(*rng.pick(&["c:l", "c:i", "c:h", "c:t", "c:n", "c:-", "c:+", "c:c", "c:x", "c:Q", "Esc", "Backspace", "PageDown", "Home", "BackTab", "Delete", "c: "])),
+        50..=59 => key(*rng.pick(&["c:l", "c:i", "c:h", "c:t", "c:n", "c:-", "c:+", "c:c", "c:x", "c:Q", "Esc", "Backspace", "PageDown", "PageUp", "Home", "End", "BackTab", "Delete", "Insert", "c: ", "F6", "F12", "c:0", "c:\u{e9}", "Null"])),
         60..=64 => {
             // modifiers on non-quit keys (plain q and exact ctrl+c are the only quit requests)
             let code = *rng.pick(&["Up", "Down", "Enter", "F3", "c:l", "c:+", "Tab"]);
@@ -59,7 +59,7 @@ fn gen_event(rng: &mut Rng, cols: u16, rows: u16) -> KEv {
             KEv::Mouse { kind: kind.into(), col, row }
         }
         87..=93 => {
-            let (w, h) = *rng.pick(&SIZES);
+            let (w, h) = if rng.chance(0.3) { (1 + rng.below(200) as u16, 1 + rng.below(70) as u16) } else { *rng.pick(&SIZES) };
             KEv::Resize { w, h }
         }
         94..=95 => KEv::FocusGained,
@@ -94,7 +94,16 @@ pub fn generate(rng: &mut Rng, fault_free: bool) -> K17 {
         let a = *rng.pick(&INVALID_CLI);
         return K17 { args: vec![], cols: 80, rows: 24, refused_first: 0, lines: vec![], events: vec![], quit_at_us: 100_000, quit_ctrl_c: false, proc_delay_us: vec![], invalid_cli: Some(a.iter().map(|s| s.to_string()).collect()) };
     }
-    let (cols, rows) = if fault_free { *rng.pick(&[(80u16, 24u16), (120, 40)]) } else { *rng.pick(&SIZES) };
+    let (cols, rows) = if fault_free {
+        *rng.pick(&[(80u16, 24u16), (120, 40)])
+    } else if rng.chance(0.3) {
+        // any size, not only the named classes (a crash at one exact width or height)
+        let wmax = if rng.coin() { 60 } else { 300 };
+        let hmax = if rng.coin() { 20 } else { 100 };
+        (1 + rng.below(wmax) as u16, 1 + rng.below(hmax) as u16)
+    } else {
+        *rng.pick(&SIZES)
+    };
     let mut args: Vec<String> = vec![];
     for f in ["--touchscreen", "--disable-lat-long", "--disable-callsign", "--disable-icao", "--disable-heading", "--disable-track", "--limit-parsing", "--retry-tcp"] {
         if rng.chance(if f == "--touchscreen" { 0.4 } else { 0.2 }) {
@@ -102,12 +111,12 @@ pub fn generate(rng: &mut Rng, fault_free: bool) -> K17 {
         }
     }
     if rng.chance(0.3) {
-        args.push(format!("--max-range={}", *rng.pick(&["50", "500", "1000000"])));
+        args.push(format!("--max-range={}", *rng.pick(&["50", "500", "1000000", "0.5", "1e12"])));
     }
     if rng.chance(0.3) {
-        args.push(format!("--scale={}", *rng.pick(&["0.01", ".12", "1", "100"])));
+        args.push(format!("--scale={}", *rng.pick(&["0.01", ".12", "1", "100", "0.0001", "1e6"])));
     }
-    let filter = *rng.pick(&[0u64, 1, 1, 2, 2, 3, 120]);
+    let filter = *rng.pick(&[0u64, 1, 1, 2, 2, 3, 120, u64::MAX]);
     args.push(format!("--filter-time={filter}"));
     if rng.chance(0.4) {
         args.push("--locations".into());
